@@ -1141,4 +1141,110 @@ Section Glue.
       destruct (RM.gc_mem hashf g p); inversion Hs; subst; exact L.
   Qed.
 
+  Local Notation Crun := (RP.Grun hashf d true true).
+  Local Notation Cadm := (RP.Gadm hashf d true true).
+
+  Lemma crun_fst : forall ops g s, fst (crun ops g s) = Crun ops g.
+  Proof.
+    induction ops as [|o ops IH]; intros g s; [reflexivity|].
+    cbn [crun]. rewrite IH. reflexivity.
+  Qed.
+
+  Lemma crun_app : forall a b g s, crun (a ++ b) g s = crun b (fst (crun a g s)) (snd (crun a g s)).
+  Proof. induction a as [|o a IH]; intros b g s; [reflexivity|]. cbn [crun app]. apply IH. Qed.
+
+  (* every history: the two machines stay related *)
+  Theorem glue_run : forall ops g s,
+    GL g s -> Cadm ops g -> gadm_run ops g -> GL (fst (crun ops g s)) (snd (crun ops g s)).
+  Proof.
+    induction ops as [|o ops IH]; intros g s L Ha Hg; [exact L|].
+    destruct Ha as [Ha Har]. destruct Hg as [Hg Hgr]. cbn [crun].
+    apply IH; [apply glue_step; assumption | exact Har | exact Hgr].
+  Qed.
+
+  Lemma Cadm_app : forall a b g, Cadm (a ++ b) g -> Cadm a g /\ Cadm b (Crun a g).
+  Proof.
+    induction a as [|o a IH]; intros b g H; [split; [exact I | exact H]|].
+    destruct H as [H1 H2]. destruct (IH b _ H2) as [H3 H4]. split; [split; assumption | exact H4].
+  Qed.
+
+  Lemma gadm_app : forall a b g, gadm_run (a ++ b) g -> gadm_run a g /\ gadm_run b (Crun a g).
+  Proof.
+    induction a as [|o a IH]; intros b g H; [split; [exact I | exact H]|].
+    destruct H as [H1 H2]. destruct (IH b _ H2) as [H3 H4]. split; [split; assumption | exact H4].
+  Qed.
+
+  (* ---------------------------------------------------------------- 6. C06 on the concrete registry *)
+  (* (a) on the run whose registry is the concrete robin-hood table, no address is finalised twice *)
+  Theorem concrete_finalised_at_most_once : forall ops p,
+    Cadm ops RM.gc_init -> gadm_run ops RM.gc_init ->
+    cnt_fin p (RM.evs (Crun ops RM.gc_init)) <= 1.
+  Proof.
+    intros ops p Ha Hg. pose proof (glue_run ops RM.gc_init cinit GL_init Ha Hg) as L.
+    rewrite crun_fst in L. set (s := snd (crun ops RM.gc_init cinit)) in *.
+    rewrite <- (rel_fin _ _ (gl_rel _ _ L) p).
+    destruct (g_rest _ _ (gl_ginv _ _ L) (idn p) (fun f => f)) as [_ H]. exact H.
+  Qed.
+
+  Lemma reg_not_root g s p : Tab g -> Rel g s -> RP.Regs (RM.slots g) p false -> is_root s (idn p) = false.
+  Proof.
+    intros T R [e [He [Hp Hr]]]. unfold is_root. apply not_true_is_false. intros Hex.
+    apply existsb_exists in Hex. destruct Hex as [[y r] [Hin Hb]]. simpl in Hb.
+    apply andb_true_iff in Hb. destruct Hb as [Hy Hr']. apply Nat.eqb_eq in Hy. subst y r.
+    apply (rel_reg g s R) in Hin. apply in_abs_reg in Hin. destruct Hin as [e' [He' [Hp' Hre']]].
+    assert (e' = e) by (apply (rel_unique_entry g e' e (t_core g T) He' He); congruence). subst e'. congruence.
+  Qed.
+
+  Lemma clear_no_marks g : RP.Clear (RM.slots g) -> c_marks g = [].
+  Proof.
+    intros Hc. unfold c_marks, abs_marks.
+    rewrite (filter_none RM.marked (entries (RM.slots g))); [reflexivity|].
+    intros x Hx. apply Hc. apply in_entries. exact Hx.
+  Qed.
+
+  (* (b) teardown — GC_Del's sweep, no mark phase — on the concrete table: every non-root address
+     registered at that moment has been finalised exactly once afterwards *)
+  Theorem concrete_teardown_complete : forall ops p,
+    Cadm (ops ++ [RM.OSweep]) RM.gc_init -> gadm_run (ops ++ [RM.OSweep]) RM.gc_init ->
+    RP.Regs (RM.slots (Crun ops RM.gc_init)) p false ->
+    cnt_fin p (RM.evs (Crun (ops ++ [RM.OSweep]) RM.gc_init)) = 1.
+  Proof.
+    intros ops p Ha Hg Hreg.
+    destruct (Cadm_app ops [RM.OSweep] _ Ha) as [Ha1 Ha2]. destruct (gadm_app ops [RM.OSweep] _ Hg) as [Hg1 Hg2].
+    pose proof (glue_run ops RM.gc_init cinit GL_init Ha1 Hg1) as L. rewrite crun_fst in L.
+    set (g := Crun ops RM.gc_init) in *. set (s := snd (crun ops RM.gc_init cinit)) in *.
+    pose proof (glue_step g s RM.OSweep L (proj1 Ha2) (proj1 Hg2)) as L'.
+    assert (Hrun : Crun (ops ++ [RM.OSweep]) RM.gc_init = fst (RP.Gstep hashf d true true g RM.OSweep)).
+    { unfold RP.Grun, RM.gc_run. rewrite fold_left_app. reflexivity. }
+    rewrite Hrun. rewrite <- (rel_fin _ _ (gl_rel _ _ L') p).
+    cbn [cstep]. pose proof (GL_Tab g s L) as T. pose proof (gl_rel g s L) as R. pose proof (gl_ginv g s L) as G.
+    assert (Hpe : pend s = []) by (rewrite (rel_pend g s R), (gl_quiet g s L); reflexivity).
+    destruct (LifecycleProofs.sweep_ok finT (S (measure s)) (fin_top_ok _) (c_order g) (c_marks g) [] s G Hpe ltac:(lia))
+      as (_ & _ & _ & Hdead & _).
+    destruct (Hdead (idn p)) as [Hd _]; [| |rewrite (clear_no_marks g (t_clear g T)); intros [] | exact Hd].
+    - apply in_reg_spec. apply (rel_in_reg g s p R). exists false. exact Hreg.
+    - apply (reg_not_root g s p T R Hreg).
+  Qed.
+
+  (* (c) del / del_root with the collector running, on the concrete table: the address is finalised
+     exactly once, at once *)
+  Theorem concrete_delete_finalises : forall ops p r,
+    Cadm (ops ++ [RM.ORem p]) RM.gc_init -> gadm_run (ops ++ [RM.ORem p]) RM.gc_init ->
+    RM.running (Crun ops RM.gc_init) = true -> RP.Regs (RM.slots (Crun ops RM.gc_init)) p r ->
+    cnt_fin p (RM.evs (Crun (ops ++ [RM.ORem p]) RM.gc_init)) = 1.
+  Proof.
+    intros ops p r Ha Hg Hrun Hreg.
+    destruct (Cadm_app ops [RM.ORem p] _ Ha) as [Ha1 Ha2]. destruct (gadm_app ops [RM.ORem p] _ Hg) as [Hg1 Hg2].
+    pose proof (glue_run ops RM.gc_init cinit GL_init Ha1 Hg1) as L. rewrite crun_fst in L.
+    set (g := Crun ops RM.gc_init) in *. set (s := snd (crun ops RM.gc_init cinit)) in *.
+    pose proof (glue_step g s (RM.ORem p) L (proj1 Ha2) (proj1 Hg2)) as L'.
+    assert (Hr : Crun (ops ++ [RM.ORem p]) RM.gc_init = fst (RP.Gstep hashf d true true g (RM.ORem p))).
+    { unfold RP.Grun, RM.gc_run. rewrite fold_left_app. reflexivity. }
+    rewrite Hr. rewrite <- (rel_fin _ _ (gl_rel _ _ L') p). cbn [cstep].
+    pose proof (gl_rel g s L) as R. pose proof (gl_ginv g s L) as G.
+    destruct (LifecycleProofs.gc_rem_ok finT (S (measure s)) (fin_top_ok _) [] s (idn p) G ltac:(lia)) as (_ & _ & Hd & _).
+    destruct Hd as [Hd _]; [rewrite (rel_run g s R); exact Hrun | | exact Hd].
+    left. apply in_reg_spec. apply (rel_in_reg g s p R). exists r. exact Hreg.
+  Qed.
+
 End Glue.
